@@ -1525,6 +1525,8 @@ class _TextReader:
         # TTL
         try:
             ttl = int(token.value, 0)
+            if ttl < 0 or ttl > dns.ttl.MAX_TTL:
+                raise dns.exception.SyntaxError("TTL out of range")
             token = self.tok.get()
             if not token.is_identifier():
                 raise dns.exception.SyntaxError
